@@ -1522,7 +1522,7 @@ class Gen:
         ref = self.pick_ref(actor, root_bias=0.8)
         if ref is None:
             return None
-        return {"op": "walkgen", "n": ref, "how": r.choice(["dfs", "bfs", "gather"]), "bottom_up": r.random() < 0.5, "take": r.choice([1, 2, 3]), "out": self.out()}
+        return {"op": "walkgen", "n": ref, "how": r.choice(["dfs", "bfs", "gather", "dfs", "bfs", "get_properties", "get_child_nodes", "get_child_nodes_with_field", "iter_child_fields"]), "bottom_up": r.random() < 0.5, "take": r.choice([1, 2, 3]), "out": self.out()}
 
     def g_gen_next(self, actor: str) -> dict[str, Any] | None:
         names = [n for n, h in self.w.handles.items() if h.kind == "gen"]
@@ -1580,10 +1580,13 @@ class Gen:
         n = r.choice([1, 1, 2, 3])
         rules: dict[str, Any] = {}
         for c in r.sample(cands, min(n, len(cands))):
-            kinds = ["keep", "rewrite", "rewrite", "rewrite_tc", "fresh", "existing", "remove", "remove"]
+            kinds = ["keep", "rewrite", "rewrite", "rewrite_tc", "fresh", "existing", "remove", "remove", "busy"]
             if self.cfg["faults"]:
                 kinds.append("raise")
             k = r.choice(kinds)
+            if k == "busy":
+                rules[c] = ["busy", r.choice(["ser", "walk", "xpath", "accessors", "visit", "dup"])]
+                continue
             if k == "raise" and r.random() < 0.6:
                 rules[c] = ["raise", r.choice(sorted(_EXC))]
                 continue
@@ -1932,8 +1935,30 @@ def _mk_visit(cls_name: str, rule: Any, world: "World"):
             changes = self._transform_children(node)
             changes[rule[1]] = U.decode(f.vt, rule[2])  # type: ignore[index]
             return dataclasses.replace(node, **changes)
-        base = self.generic_visit(node)
         kind = rule if isinstance(rule, str) else rule[0]
+        if kind == "busy":
+            # a visit method that itself uses the library on the node it was given (re-entrancy), then keeps it
+            how = rule[1]
+            if how == "ser":
+                try:
+                    node.as_dict()
+                    node.to_json()
+                except Exception:  # noqa: BLE001
+                    pass
+            elif how == "walk":
+                _ = [x.node.id for x in node.dfs()], [x.node.id for x in node.bfs()], node.to_tree().root
+            elif how == "xpath":
+                _ = list(node.findall("//LeafA")), node.find("//Seq")
+            elif how == "accessors":
+                _ = list(node.get_properties()), list(node.get_child_nodes()), node.to_properties_dict()
+            elif how == "visit":
+                # a nested, independent visitor run on the same subtree
+                make_visitor({"LeafA": "keep"}, False, world, transform=True).transform(node)
+            elif how == "dup":
+                node.duplicate()
+            world.stats.probes["library_used_inside_visit:" + how] += 1
+            kind = "keep"
+        base = self.generic_visit(node)
         if kind == "keep":
             return base
         if kind == "remove":
@@ -2312,6 +2337,14 @@ def op_walkgen(self: World, op: dict[str, Any]) -> str:
         g = o.dfs(bottom_up=op.get("bottom_up", False))
     elif how == "bfs":
         g = o.bfs()
+    elif how == "get_properties":
+        g = iter(o.get_properties(sort_keys=op.get("bottom_up", False)))
+    elif how == "get_child_nodes":
+        g = iter(o.get_child_nodes(sort_keys=op.get("bottom_up", False)))
+    elif how == "get_child_nodes_with_field":
+        g = iter(o.get_child_nodes_with_field(sort_keys=op.get("bottom_up", False)))
+    elif how == "iter_child_fields":
+        g = iter(o.iter_child_fields())
     else:
         g = o.gather(U.CLS[op.get("cls", "LeafA")])
     try:
@@ -2496,7 +2529,7 @@ def expect_transform(o: Any, rules: dict[str, Any], strict: bool, world: World, 
     calls.append((meth, cls))
     base = _expect_generic(o, rules, strict, world, calls)
     kind = rule if isinstance(rule, str) else rule[0]
-    if kind == "keep":
+    if kind in ("keep", "busy"):
         return base
     if kind == "remove":
         return "removed"
